@@ -42,6 +42,18 @@ def fresh(name, sort='int'):
     raise Unsupported(f'fresh sort {sort}')
 
 
+def mask_key(m):
+    """Identity of a boolean mask *and* of its current contents (a store is re-keyed by writes)."""
+    st = getattr(m, 'store', None)
+    return (id(m), id(st.fn) if st is not None else None)
+
+
+def _bag_like(bag, val, kind):
+    out = SBag(bag.shape, bag.pred, val, kind)
+    out.mask_id = getattr(bag, 'mask_id', None)
+    return out
+
+
 class State:
     def __init__(self, env=None):
         self.env = dict(env or {})
@@ -253,6 +265,22 @@ class Executor:
                                          lineno=node.lineno), st)
 
     def st_AugAssign(self, node, st):
+        if (isinstance(node.target, ast.Subscript)
+                and not isinstance(node.target.slice, (ast.Tuple, ast.Slice, ast.Constant,
+                                                       ast.Name))):
+            # the index expression is evaluated once (a[expr] op= v)
+            tmp = f'__augidx{node.lineno}'
+            r = self.eval(node.target.slice, st)
+            if len(r) != 1 or isinstance(r[0][0], tuple):
+                raise Unsupported('forking index in augmented assignment')
+            st = r[0][0]
+            st.env[tmp] = r[0][1]
+            tgt = ast.Subscript(value=node.target.value, slice=ast.Name(id=tmp, ctx=ast.Load()),
+                                ctx=ast.Store())
+            node = ast.AugAssign(target=ast.copy_location(tgt, node.target), op=node.op,
+                                 value=node.value, lineno=node.lineno,
+                                 col_offset=node.col_offset)
+            ast.fix_missing_locations(node)
         load = _as_load(node.target)
         out = []
         for s2, v in self.eval(ast.BinOp(left=load, op=node.op, right=node.value), st):
@@ -576,7 +604,7 @@ class Executor:
 
     def unop(self, op, v):
         if isinstance(v, SBag):
-            return SBag(v.shape, v.pred, lambda p, f=v.val: self.unop(op, f(p)), v.kind)
+            return _bag_like(v, lambda p, f=v.val: self.unop(op, f(p)), v.kind)
         if isinstance(v, SArr):
             return SArr(v.shape, lambda idx, f=snap(v): self.unop(op, f(idx)),
                         'bool' if isinstance(op, (ast.Not, ast.Invert)) and v.kind == 'bool'
@@ -613,6 +641,14 @@ class Executor:
         if isinstance(op, ast.Mult) and isinstance(a, (tuple, list)) and isinstance(b, int):
             return a * b
         if isinstance(a, (SArr, SSeq, SBag)) or isinstance(b, (SArr, SSeq, SBag)):
+            if isinstance(op, (ast.Div, ast.FloorDiv, ast.Mod)):
+                # numpy elementwise division never raises (it yields inf/nan, which the
+                # real-number model cannot represent): instead of a lazily emitted scalar
+                # check, prove eagerly that no selected element of the divisor is zero
+                quiet = State()
+                quiet.facts = st.facts
+                self._array_divisor_check(b, st)
+                return self.lift2(lambda x, y: self.binop(op, x, y, quiet), a, b, op)
             return self.lift2(lambda x, y: self.binop(op, x, y, st), a, b, op)
         if isinstance(a, SStr) or isinstance(b, SStr) or isinstance(a, str) or isinstance(b, str):
             if isinstance(op, (ast.Add, ast.Mod)):
@@ -676,19 +712,40 @@ class Executor:
             raise Unsupported('general power')
         raise Unsupported(f'binary {type(op).__name__}')
 
+    def _array_divisor_check(self, b, st):
+        label = 'array divisor non-zero (numpy would yield inf/nan, outside the real model)'
+        if isinstance(b, SBag):
+            p = tuple(fresh('dvi', 'int') for _ in b.shape)
+            guard = [z3.And(x >= 0, x < num_term(n)) for x, n in zip(p, b.shape)]
+            guard.append(to_bool(b.pred(p)))
+            y = b.val(p)
+        elif isinstance(b, SArr):
+            p = tuple(fresh('dvi', 'int') for _ in b.shape)
+            guard = [z3.And(x >= 0, x < num_term(n)) for x, n in zip(p, b.shape)]
+            y = snap(b)(p)
+        elif isinstance(b, SSeq):
+            p = fresh('dvi', 'int')
+            guard = [z3.And(p >= 0, p < num_term(b.length))]
+            y = b.fn(p)
+        else:
+            guard, y = [], b
+        st.check(label, z3.Implies(z3.And(*guard) if guard else z3.BoolVal(True),
+                                   num_term(y) != 0))
+
     def lift2(self, f, a, b, op=None):
         if isinstance(a, SBag) or isinstance(b, SBag):
             bag = a if isinstance(a, SBag) else b
             other = b if isinstance(a, SBag) else a
             if isinstance(a, SBag) and isinstance(b, SBag):
-                if a.pred is not b.pred:
+                if a.pred is not b.pred and (getattr(a, 'mask_id', None) is None
+                                             or a.mask_id != getattr(b, 'mask_id', None)):
                     raise Unsupported('arithmetic on bags selected by different masks')
-                return SBag(a.shape, a.pred, lambda p: f(a.val(p), b.val(p)), 'real')
+                return _bag_like(a, lambda p: f(a.val(p), b.val(p)), 'real')
             if isinstance(other, (SArr, SSeq)):
                 raise Unsupported('bag combined with a full array')
             if bag is a:
-                return SBag(bag.shape, bag.pred, lambda p: f(bag.val(p), other), 'real')
-            return SBag(bag.shape, bag.pred, lambda p: f(other, bag.val(p)), 'real')
+                return _bag_like(bag, lambda p: f(bag.val(p), other), 'real')
+            return _bag_like(bag, lambda p: f(other, bag.val(p)), 'real')
         kind = None
         if isinstance(op, (ast.Div,)):
             kind = 'real'
@@ -969,7 +1026,7 @@ class Executor:
             m = idx[0]
             mf = snap(m)
             bag = SBag(a.shape, mf, snap(a), a.kind)
-            bag.mask_id = id(m)
+            bag.mask_id = mask_key(m)
             return bag
         if len(idx) == 1 and isinstance(idx[0], tuple):
             idx = idx[0]
@@ -1090,7 +1147,7 @@ class Executor:
             vf = snap(v)
             vfin = snap_finite(v)
         elif isinstance(v, SBag):
-            if mask is None or getattr(v, 'mask_id', None) != id(idx[0]):
+            if mask is None or getattr(v, 'mask_id', None) != mask_key(idx[0]):
                 raise Unsupported('masked store of a bag selected by a different mask')
             vf = v.val
             vfin = None
@@ -1133,7 +1190,9 @@ class Executor:
             for a, v in zip(node.args.args, args):
                 s2.env[a.arg] = v
             return self.eval1(node.body, s2)
-        return [(st, SFunc(fn, 'lambda'))]
+        f = SFunc(fn, 'lambda')
+        f.argnames = [a.arg for a in node.args.args]
+        return [(st, f)]
 
     def ex_ListComp(self, node, st):
         if len(node.generators) != 1 or node.generators[0].ifs:
